@@ -142,7 +142,7 @@ Definition after_scheme (t : bytes) : option bytes :=
   end.
 
 Definition two_slashes (s : bytes) : bool :=
-  match s with 47 :: 47 :: _ => true | _ => false end.
+  match s with x :: y :: _ => (x =? 47) && (y =? 47) | _ => false end.
 Definition path_end (x : N) : bool := (x =? 63) || (x =? 35).           (* "?" "#" *)
 Definition auth_end (x : N) : bool := (x =? 47) || (x =? 63) || (x =? 35).
 
@@ -156,8 +156,8 @@ Definition hier (t : bytes) : bytes :=
 Definition raw_path (t : bytes) : bytes := until path_end (hier t).
 Definition raw_query (t : bytes) : bytes :=
   match from path_end (hier t) with
-  | 63 :: q => until (N.eqb 35) q
-  | _ => []
+  | x :: q => if x =? 63 then until (N.eqb 35) q else []
+  | [] => []
   end.
 
 (* RFC 3986 2.1: "%" HEXDIG HEXDIG is decoded; any other "%" stands for itself *)
@@ -185,13 +185,13 @@ Fixpoint pct_decode (s : bytes) : bytes :=
 (* "/" *"/" rest  ->  "/" rest *)
 Fixpoint drop_slashes (s : bytes) : bytes :=
   match s with
-  | 47 :: s' => drop_slashes s'
-  | _ => s
+  | x :: s' => if x =? 47 then drop_slashes s' else s
+  | [] => []
   end.
 Definition collapse (p : bytes) : bytes :=
   match p with
-  | 47 :: _ => 47 :: drop_slashes p
-  | _ => p
+  | x :: _ => if x =? 47 then 47 :: drop_slashes p else p
+  | [] => []
   end.
 
 Fixpoint strip_prefix (pre s : bytes) : option bytes :=
@@ -207,8 +207,8 @@ Definition path_info (prefix p : bytes) : bytes :=
   | _ =>
     match strip_prefix prefix p with
     | Some [] => []
-    | Some (47 :: r) => 47 :: r
-    | _ => p
+    | Some (x :: r) => if x =? 47 then x :: r else p
+    | None => p
     end
   end.
 
